@@ -75,6 +75,10 @@ def run(workers, recipe, rng: random.Random, faults=(), stop_after="tags",
             objs = [pickle.loads(b) for b in blobs]
             for r in range(n):
                 res[r] = pickle.dumps(objs) if r == root else None
+        elif name == "allgather":
+            objs = [pickle.loads(b) for b in blobs]
+            for r in range(n):
+                res[r] = pickle.dumps(objs)
         elif name == "barrier":
             for r in range(n):
                 res[r] = None
